@@ -11,6 +11,11 @@ import sys
 import time
 from fractions import Fraction
 
+# exact runs can produce rationals of many thousand digits; the library formats numbers into messages (mass balance
+# warnings): Python's default limit on int -> str conversion would turn that into a ValueError of the harness's making
+if hasattr(sys, "set_int_max_str_digits"):
+    sys.set_int_max_str_digits(0)
+
 VERIF = os.path.dirname(os.path.dirname(os.path.abspath(__file__)))
 REPO = os.environ.get("WSI_REPO", "/repo")
 COQ = os.path.join(VERIF, "coq")
